@@ -1342,6 +1342,9 @@ func makeTaskForMesosResources(
 
 	bindMap := make(channel.BindMap)
 	for _, ch := range wants.InboundChannels {
+		if len(ch.Target) != 0 { // static bind address, not matched: nothing to allocate or advertise
+			continue
+		}
 		if ch.Addressing == channel.IPC {
 			bindMap[ch.Name] = channel.NewBoundIpcEndpoint(ch.Transport)
 		} else {
